@@ -120,7 +120,29 @@ TwiceCases == {[src |-> TwiceSrc(IntArr(n), f, a1, a2),
                  n \in 2..5, s \in 0..1, e \in 1..3, f \in {"append", "prepend", "reverse"}}
 TwiceRecord(c) == [src |-> c.src, data |-> <<>>, expect |-> [kind |-> "out", out |-> c.out], tags |-> <<"c11", "twice">>]
 
+\* "the receiver and arguments are unchanged afterwards": the arguments come from variables, the call is made twice and
+\* receiver and arguments are printed again (an argument modified in place shows in the second result and in its variable)
+RECURSIVE ArgAssigns(_, _)
+ArgAssigns(a, i) == IF i > Len(a) THEN "" ELSE "{{ a" \o ToString(i) \o " = " \o LitV(a[i]) \o " }}" \o ArgAssigns(a, i + 1)
+RECURSIVE ArgNames(_, _)
+ArgNames(a, i) == IF i > Len(a) THEN "" ELSE "a" \o ToString(i) \o (IF i = Len(a) THEN "" ELSE ", ") \o ArgNames(a, i + 1)
+RECURSIVE ArgPrints(_, _)
+ArgPrints(a, i) == IF i > Len(a) THEN "" ELSE "|{{ a" \o ToString(i) \o " }}" \o ArgPrints(a, i + 1)
+RECURSIVE ArgShows(_, _)
+ArgShows(a, i) == IF i > Len(a) THEN "" ELSE "|" \o ShowB(a[i]) \o ArgShows(a, i + 1)
+ArgVarSrc(c) == "{{ r = " \o LitV(c.r) \o " }}" \o ArgAssigns(c.a, 1) \o "{{ r." \o c.f \o "(" \o ArgNames(c.a, 1) \o ") }}|{{ r." \o c.f \o "("
+                \o ArgNames(c.a, 1) \o ") }}|{{ r }}" \o ArgPrints(c.a, 1)
+ArgVarOK(c) == Len(c.a) >= 1 /\ PrintableB(c.r) /\ \A i \in 1..Len(c.a) : c.a[i].t # "nil" /\ PrintableB(c.a[i])
+ArgVarCases == {c \in StrCases(2) \cup ContainsCases(2, 1) \cup DecCases \cup ArrCases(2) \cup SliceCases \cup NumCases : ArgVarOK(c)}
+ArgVarExpect(c) == LET v == CallFn(c.f, c.r, c.a) IN
+                   CASE v.t = "err" -> [kind |-> "err", why |-> v.why]
+                     [] v.t \in {"unspec", "oneof", "perm"} -> [kind |-> "any"]
+                     [] OTHER -> IF PrintableB(v) THEN [kind |-> "out", out |-> ShowB(v) \o "|" \o ShowB(v) \o "|" \o ShowB(c.r) \o ArgShows(c.a, 1)]
+                                 ELSE [kind |-> "any"]
+ArgVarRecord(c) == [src |-> ArgVarSrc(c), data |-> <<>>, expect |-> ArgVarExpect(c), tags |-> <<"c11", "argvars", c.r.t, c.f>>]
+
 Cases == CASE Family = "twice" -> TwiceCases
+           [] Family = "argvars" -> ArgVarCases
            [] Family = "conv" -> ConvCases
            [] Family = "str2" -> StrCases(2) \cup ContainsCases(2, 1) \cup DecCases
            [] Family = "str3" -> StrCases(3) \cup ContainsCases(3, 2) \cup DecCases
@@ -156,7 +178,8 @@ LemmaCase == \A r \in Strs(2) : StrFn("lower", StrFn("upper", r, <<>>), <<>>) = 
 ASSUME LemmaLenRev /\ LemmaSlice /\ LemmaCase
 
 Init == cas \in Cases /\ rec = [src |-> ""]
-Next == rec.src = "" /\ rec' = (IF Family = "conv" THEN ConvRecord(cas) ELSE IF Family = "twice" THEN TwiceRecord(cas) ELSE Record(cas)) /\ UNCHANGED cas
+Next == rec.src = "" /\ rec' = (IF Family = "conv" THEN ConvRecord(cas) ELSE IF Family = "twice" THEN TwiceRecord(cas)
+                                      ELSE IF Family = "argvars" THEN ArgVarRecord(cas) ELSE Record(cas)) /\ UNCHANGED cas
 Spec == Init /\ [][Next]_vars
 Total == (rec.src # "" /\ Family # "conv") => rec.expect.kind \in {"out", "err", "any", "oneof"}
 Gen == (rec.src # "" /\ Emit_) => PrintT(ToJson(rec))
